@@ -110,7 +110,7 @@ CONFIGS = {
 
 PLAN = {
     "C01": dict(quick=["shapes3", "seeds3", "arch3"], thorough=["shapes3", "seeds3", "lin4", "ignore3", "oog3", "arch3"],
-                drivers=["forced", "run", "closure", "incr", "group", "afterincr"]),
+                drivers=["forced", "run", "closure", "incr", "group", "afterincr", "pool1"]),
     "C02": dict(quick=["kinds3q", "miss3q", "dis3q", "points3", "falsy3"],
                 thorough=["kinds3", "rules3", "miss3q", "dis3q", "points3", "falsy3", "shapes3", "ignore3"],
                 drivers=["forced", "run"]),
